@@ -19,10 +19,11 @@ T9  == <<92, 34>>                \* \"         backslash, quote: written "\"""
 T10 == <<97, 13, 10, 98>>        \* a<CR><LF>b
 T11 == <<39, 37, 35>>            \* '%#        apostrophe, percent, hash
 T12 == <<65, 98>>                \* Ab         mixed case (equals "aB")
+T13 == <<233, 128512, 26085>>    \* e-acute, an emoji beyond U+FFFF, a CJK character
 
 MCLit == [x \in {"2", "3", "0.5", "1E2", "1E+2", "1.5E1", "1E-1", "TRUE", "FALSE",
                  "#N/A", "#DIV/0!", "#REF!",
-                 "T1", "T2", "T3", "T4", "T5", "T6", "T7", "T8", "T9", "T10", "T11", "T12"} |->
+                 "T1", "T2", "T3", "T4", "T5", "T6", "T7", "T8", "T9", "T10", "T11", "T12", "T13"} |->
    CASE x = "2" -> IntV(2) [] x = "3" -> IntV(3) [] x = "0.5" -> Num(1, 2)
      [] x = "1E2" -> IntV(100) [] x = "1E+2" -> IntV(100) [] x = "1.5E1" -> IntV(15)
      [] x = "1E-1" -> Num(1, 10)
@@ -31,7 +32,8 @@ MCLit == [x \in {"2", "3", "0.5", "1E2", "1E+2", "1.5E1", "1E-1", "TRUE", "FALSE
      [] x = "T1" -> Text(T1) [] x = "T2" -> Text(T2) [] x = "T3" -> Text(T3)
      [] x = "T4" -> Text(T4) [] x = "T5" -> Text(T5) [] x = "T6" -> Text(T6)
      [] x = "T7" -> Text(T7) [] x = "T8" -> Text(T8) [] x = "T9" -> Text(T9)
-     [] x = "T10" -> Text(T10) [] x = "T11" -> Text(T11) [] x = "T12" -> Text(T12)]
+     [] x = "T10" -> Text(T10) [] x = "T11" -> Text(T11) [] x = "T12" -> Text(T12)
+     [] x = "T13" -> Text(T13)]
 
 MCRefs == {"A1", "B1"}
 MCEnvs == << [A1 |-> IntV(-1),  B1 |-> Text(<<51>>)],       \* -1, "3"
